@@ -66,8 +66,9 @@ import (
 //	    everything in between is a boundary document and gets NO verdict. A must-be-gone document that is
 //	    still present is re-checked after another 10 intervals + 400 ms before it is reported.
 //
-// A document that must be present but is gone WITHOUT a delete event in the change log was not removed by the
-// expiry: it is a lost acknowledged write (Property C04, ttl-clock:ack-lost; see ttlclock_clients.go).
+// A document that must be present but is gone while the change log has neither a delete event nor its insert event
+// was not removed by the expiry: it is a lost acknowledged write (Property C04, ttl-clock:ack-lost; see
+// ttlclock_clients.go).
 //
 // Witness classes (Property C19): ttl-clock:kept-expired, ttl-clock:stalled-after-session,
 // ttl-clock:removed-fresh, ttl-clock:non-date-removed, ttl-clock:non-ttl-collection-touched,
@@ -644,11 +645,12 @@ func (s *tcScn) insertAll(ctx context.Context) error {
 // ---- snapshots and the oracle -----------------------------------------------------------------------
 
 type tcSnap struct {
-	deleted map[lungo.Handle]map[string]int // delete events per document in the snapshot's change log
-	t0, t1  int64
-	slowEnd int64
-	cat     *lungo.Catalog
-	present map[lungo.Handle]map[string]bool
+	deleted  map[lungo.Handle]map[string]int // delete events per document in the snapshot's change log
+	inserted map[lungo.Handle]map[string]int // insert events
+	t0, t1   int64
+	slowEnd  int64
+	cat      *lungo.Catalog
+	present  map[lungo.Handle]map[string]bool
 }
 
 func (s *tcScn) snapshot() tcSnap {
@@ -668,20 +670,24 @@ func (s *tcScn) snapshot() tcSnap {
 		}
 		sn.present[h] = m
 	}
-	sn.deleted = map[lungo.Handle]map[string]int{}
+	sn.deleted, sn.inserted = map[lungo.Handle]map[string]int{}, map[lungo.Handle]map[string]int{}
 	if ns := cat.Namespaces[lungo.Oplog]; ns != nil {
 		for _, ev := range ns.Documents.List {
-			if op, _ := bsonkit.Get(ev, "operationType").(string); op != "delete" {
+			op, _ := bsonkit.Get(ev, "operationType").(string)
+			m := sn.deleted
+			if op == "insert" {
+				m = sn.inserted
+			} else if op != "delete" {
 				continue
 			}
 			db, _ := bsonkit.Get(ev, "ns.db").(string)
 			coll, _ := bsonkit.Get(ev, "ns.coll").(string)
 			id, _ := bsonkit.Get(ev, "documentKey._id").(string)
 			h := lungo.Handle{db, coll}
-			if sn.deleted[h] == nil {
-				sn.deleted[h] = map[string]int{}
+			if m[h] == nil {
+				m[h] = map[string]int{}
 			}
-			sn.deleted[h][id]++
+			m[h][id]++
 		}
 	}
 	return sn
@@ -738,9 +744,11 @@ func (s *tcScn) judge(sn tcSnap, phase string) (kept []*tcDoc, soonFresh, soonBo
 				when = fmt.Sprintf("expires %d ms after the snapshot", d.x-sn.t1)
 			}
 			switch {
-			case sn.deleted[d.h][d.id] == 0:
-				// nothing in the change log says that it was deleted: not an expiry removal but a lost write
-				s.violP("C04", "ttl-clock:ack-lost", "an acknowledged insert is not in the state any more although the change log has no delete event for it", where+" ("+when+")")
+			case sn.deleted[d.h][d.id] == 0 && sn.inserted[d.h][d.id] == 0 && s.p.Mode != "reopen":
+				// the change log knows neither a delete nor the insert itself: not an expiry removal but a write
+				// that was acknowledged and then overwritten by a writer that started from an older catalog
+				// (mode reopen: the engine under test has no client writes and possibly an empty log)
+				s.violP("C04", "ttl-clock:ack-lost", "an acknowledged insert is neither in the state nor in the change log any more", where+" ("+when+")")
 			case !d.ttlColl:
 				s.viol("ttl-clock:non-ttl-collection-touched", "a document of a collection without TTL index was removed by the periodic expiry", where)
 			case !d.hasDate:
